@@ -1275,7 +1275,7 @@ type item struct {
 	cfg   Config
 	rich  bool
 	level int    // model transport: alphabet level
-	first string // model transport: explore only the subtree below this first answer
+	first string // explore only the subtree below this first answer
 }
 
 type bs struct {
@@ -1419,8 +1419,28 @@ func configs(thorough bool) []item {
 		}, []int{2})
 		modelProduct(&out, 0, false, map[string][]bs{"POST": bodiesOf(mk, []int{3})[1:]}, []int{3})
 	}
-	// biggest trees first for better load balance
+	if thorough {
+		// cut the big real-transport trees into one work item per first answer (load balance at the tail)
+		var split []item
+		for _, it := range out {
+			if it.cfg.Conn == "model" || it.cfg.Retries < 2 || it.first != "" {
+				split = append(split, it)
+				continue
+			}
+			for _, sym := range alphabet(it.cfg, it.rich) {
+				p := it
+				p.first = sym
+				split = append(split, p)
+			}
+		}
+		out = split
+	}
+	// the (cheap, CPU-only) model-transport part first, so that a time cap on an overloaded machine
+	// never cuts it; then biggest trees first for better load balance
 	sort.SliceStable(out, func(i, j int) bool {
+		if mi, mj := out[i].cfg.Conn == "model", out[j].cfg.Conn == "model"; mi != mj {
+			return mi
+		}
 		if out[i].cfg.Retries != out[j].cfg.Retries {
 			return out[i].cfg.Retries > out[j].cfg.Retries
 		}
